@@ -134,6 +134,24 @@ def run(ck):
     tests = [b for b in f.blocks.values() if b.term and b.term.get("k") == "if" and "c:std::thread::joinable" in (b.term.get("refs") or [])]
     ok = len(jn) == 1 and len(tests) == 1 and cfg.edge_dominates(f, tests[0].id, 0, jn[0])
     ck.ob("C09-R2", "Worker::~Worker/joins", ok, f.loc, f, "if (thread.joinable()) thread.join()")
+    # shutdown() only *asks* the threads to stop; they are joined when the objects are destroyed.  A join on the shutdown path makes
+    # shutdown() wait for every running handler -- for ever when a handler waits for something that follows the shutdown, and a
+    # deadlock error when shutdown() is called from a handler (a worker joining itself)
+    summ2 = lib.Summaries(prog)
+    is_join = lambda e: e["k"] == "call" and (e.get("callee") or "") == "std::thread::join"
+    nsd = 0
+    for base_ in ("Pistache::Aio::Reactor::shutdown", "Pistache::Aio::AsyncImpl::shutdown", "Pistache::Aio::SyncImpl::shutdown", L + "shutdown",
+                  "Pistache::Http::Endpoint::shutdown"):
+        for f_ in prog.by_base.get(base_, []):
+            if not f_.blocks:
+                continue
+            nsd += 1
+            j_ = summ2.may(f_, is_join, "thread-join")
+            ck.ob("C09-R2", "%s/does-not-join" % base_.replace("Pistache::", ""), not j_, f_.loc, f_,
+                  "signals only; threads are joined by the destructors" if not j_ else
+                  "std::thread::join is reachable from %s: shutdown() blocks until every running handler has returned, and called from a "
+                  "handler it joins the calling thread itself" % base_.replace("Pistache::", ""))
+    ck.require(nsd >= 3, "shutdown entry points found: %d" % nsd)
 
     # Listener::shutdown() only notifies a *bound* shutdownFd, so the notifier must be bound before the acceptor thread exists:
     # otherwise a shutdown() issued right after serveThreaded() is lost and the acceptor keeps polling
